@@ -184,10 +184,13 @@ def renderSticky (s : Sticky) : Str :=
   lit "Note " ++ s.name ++ lit " {\n" ++ indent4 (quoteString s.text) ++ lit "\n}"
 
 /-- `DefaultDBMLRenderer.render_db`. -/
+def renderProjectList (db : Db) : R (List Str) :=
+  match db.project with
+  | some p => (renderProject p).map fun x => [x]
+  | none => .ok []
+
 def renderDb (db : Db) : R Str := do
-  let proj ← match db.project with
-    | some p => do pure [← renderProject p]
-    | none => pure []
+  let proj ← renderProjectList db
   let enums := db.enums.map renderEnum
   let tables ← (List.range db.tables.length).mapM (renderTable db)
   let refs ← (db.refs.filter (!·.inline)).mapM (renderRef db)
